@@ -15,6 +15,9 @@ func run(c *core.Ctx) {
 	c.Assume("values the transport cannot carry are outside the alphabet: empty path segment, control characters outside bodies, RFC 6265-forbidden cookie characters")
 	c.Assume("the wire is in-memory: http.Request.Write -> http.ReadRequest -> goa muxer on an httptest recorder (exact net/http serialisation and parsing, no sockets)")
 	fams := []check.Family{families.PayloadSingle(), families.PayloadPair(c.Thorough()), families.Features()}
+	if families.OnlyStreams(c) {
+		fams = nil
+	}
 	for _, f := range fams {
 		corpus, err := check.BuildFamily(c, f)
 		if err != nil {
@@ -25,6 +28,9 @@ func run(c *core.Ctx) {
 			c.HarnessError("%s: %v", f.Name, err)
 		}
 	}
+	// thorough tier: HTTP (WebSocket) streaming endpoints, initial payload and streamed requests
+	// (driver mode C02S, e2/drv/c02stream.go)
+	families.RunStreams(c, "C02S")
 }
 
 func main() { core.Main("C02", run, nil) }
